@@ -66,7 +66,24 @@ pub enum WStep {
     Interrupted,
     /// one hard error (BrokenPipe) for this call only: a transient transport error
     Fail,
+    /// like Fail with another io::ErrorKind (index into ERROR_KINDS)
+    FailKind(u8),
 }
+
+/// error kinds a stream can report for a write (Interrupted is a retry request, not an error; WouldBlock is left out:
+/// on a non-blocking stream it is a retry request as well)
+pub const ERROR_KINDS: [io::ErrorKind; 10] = [
+    io::ErrorKind::BrokenPipe,
+    io::ErrorKind::TimedOut,
+    io::ErrorKind::ConnectionReset,
+    io::ErrorKind::ConnectionAborted,
+    io::ErrorKind::NotConnected,
+    io::ErrorKind::Other,
+    io::ErrorKind::WriteZero,
+    io::ErrorKind::UnexpectedEof,
+    io::ErrorKind::PermissionDenied,
+    io::ErrorKind::InvalidInput,
+];
 
 /// A writer that accepts only part of each write / fails at a given byte position.
 pub struct AdvWriter {
@@ -107,6 +124,10 @@ impl Write for AdvWriter {
             WStep::Fail => {
                 *self.hard_errors.borrow_mut() += 1;
                 Err(io::Error::new(io::ErrorKind::BrokenPipe, "injected transient write error"))
+            }
+            WStep::FailKind(k) => {
+                *self.hard_errors.borrow_mut() += 1;
+                Err(io::Error::new(ERROR_KINDS[k as usize % ERROR_KINDS.len()], "injected transient write error"))
             }
             WStep::Cap(c) => {
                 let mut n = buf.len().min(c.max(1) as usize);
